@@ -4,6 +4,7 @@ import (
 	"fmt"
 	"go/types"
 	"path/filepath"
+	"regexp"
 	"sort"
 	"strings"
 
@@ -161,6 +162,20 @@ func checkC21(c *Check) {
 	c.Floor("printer/parsed-field-is-printed", 15)
 	printerOrderFollowsParser(c, a.r, a.pkg, tl1Family)
 	c.Floor("printer/field-order-follows-parser", 6)
+	// (3) the other printers of a node that Combinator.String runs (TypeRef.TopLevelString for function results)
+	// consult on every path what <Node>.String consults on every path
+	reach := map[string]bool{}
+	for fn := range a.p.reachable(root) {
+		top := fn
+		for top.Parent() != nil {
+			top = top.Parent()
+		}
+		if obj, _ := top.Object().(*types.Func); obj != nil {
+			reach[obj.FullName()] = true
+		}
+	}
+	printerSiblingsConsultSameFields(c, a.r, "printer/field-consulted-on-every-path", true, func(pb *printerBody) bool { return reach[pb.fi.Obj.FullName()] })
+	c.Floor("printer/field-consulted-on-every-path", 3)
 }
 
 // c21Unprinted: parsed fields that the String() family legitimately does not read (derived values).
@@ -241,8 +256,34 @@ func checkC25(c *Check) {
 					}
 				}
 			})
-			ok = emits == 1 && newline && skipOK && conts <= 2
-			detail = fmt.Sprintf("per combinator: canonicalFormWithTag calls=%d, newline after it=%v, skips=%d (only nil entries and the five builtin names)=%v", emits, newline, conts, skipOK)
+			// the skipped names are exactly those of the fixed header lines, compared with the full (namespace-qualified)
+			// constructor name — a local-name comparison would also drop `ns.int`, `ns.string`, …
+			var header []string
+			for _, n := range ir.Body {
+				if cn, isC := n.(*CallN); isC && cn.Fn != nil && cn.Fn.Name() == "S" && len(cn.Args) == 1 {
+					if m := regexp.MustCompile(`^"([a-z]\w*)#[0-9a-f]{8} \? = \w+"$`).FindStringSubmatch(cn.Args[0]); m != nil {
+						header = append(header, `"`+m[1]+`"`)
+					}
+				}
+			}
+			sort.Strings(header)
+			fullName := false
+			walkBlock(loop.Body, nil, func(n Node, _ []Guard) {
+				if sw, isS := n.(*SwitchN); isS {
+					var vals []string
+					for _, cs := range sw.Cases {
+						if !cs.Default {
+							vals = append(vals, cs.Vals...)
+						}
+					}
+					sort.Strings(vals)
+					if strings.HasSuffix(sw.Tag, ".Construct.Name.String()") && strings.Join(vals, ",") == strings.Join(header, ",") {
+						fullName = true
+					}
+				}
+			})
+			ok = emits == 1 && newline && skipOK && conts <= 2 && (conts < 2 || fullName)
+			detail = fmt.Sprintf("per combinator: canonicalFormWithTag calls=%d, newline after it=%v, skips=%d (only nil entries and the builtin names)=%v; skipped names are the header names %v compared with the full constructor name: %v", emits, newline, conts, skipOK, header, fullName)
 		}
 		c.Ob("canonical/one-line-per-combinator", "TL.StreamGenerate2TL", ok, a.r.pos(ir.Info.Decl.Pos()), detail)
 	}
